@@ -228,6 +228,7 @@ def run(ctx):
     error_branches_of_actions_leave_a_value(ctx)
     class_hierarchy_is_acyclic(ctx)
     lookup_results_are_nullable(ctx)
+    parallel_subscripts_are_bounded(ctx)
     containment_recursion(ctx)
     construction_stacks(ctx)
     lexer_restore_order(ctx)
@@ -1973,3 +1974,106 @@ def lookup_results_are_nullable(ctx):
                        "%s() dereferences this parameter without a test of its own; the call is %sbehind evidence that %s is not null" % (callee_short(c), "" if ok else "NOT ", show(call)[:40]))
     ctx.floor("R15.25", "dereferences of lookup results", n, 30)
     ctx.floor("R15.25", "lookup results passed to a callee that dereferences them", n_arg, 2)
+
+
+def _nospace(n):
+    return show(n).replace(" ", "") if n is not None else ""
+
+
+def parallel_subscripts_are_bounded(ctx):
+    """R15.26: `for (i = 0; i < A.size(); ++i) ... B[i]` is in bounds only if something says that B is as long as A.  The
+    code base has three ways of saying it, and one way of NOT saying it: an `nassertd(i < B.size()) break;`, which is
+    `if (false) break;` in the tools as built.  Accepted: (i) the function compares A.size() with B.size() and leaves on
+    the unequal side before the loop; (ii) B and A are the same member of an object and of its copy made in this
+    function (`rep = new T(*this)`); (iii) an explicit `i < B.size()` on the way.
+    (F-C15x: write_call_args() walked the caller's expression list and subscripted `_parameters` with it; `int
+    __getbuffer__();` - fewer parameters than the slot supplies - called through a garbage pointer.)"""
+    db = ctx.db
+    ctx.rule("R15.26", "a counted loop bounded by A.size() subscripts a different container B with its counter only behind `A.size() == B.size()`, `i < B.size()`, or when one is the same member of a copy of the other's owner")
+    n = 0
+    for f in db.functions:
+        if "bison" in f.file or not any(d in f.file for d in ("/interrogate/", "/cppparser/", "/interrogatedb/")):
+            continue
+        locs, copies = {}, {}
+        for y in f.walk():
+            if y.get("k") == "decls":
+                for dd in y["d"]:
+                    i0 = strip_casts(peel(dd.get("init"))) if dd.get("init") is not None else None
+                    if i0 is not None and i0.get("k") == "call" and callee_short(i0) == "size" and "this" in i0:
+                        locs[dd["d"]] = _nospace(i0["this"])
+                    if i0 is not None and i0.get("k") == "new":
+                        ct = strip_casts(peel(i0.get("e"))) if i0.get("e") is not None else None
+                        if ct is not None and ct.get("k") == "ctor" and len(ct.get("a", [])) == 1 and "*this" in _nospace(ct["a"][0]):
+                            copies[dd["d"]] = dd.get("n")
+
+        def size_of(nd):
+            nd = strip_casts(peel(nd)) if nd is not None else None
+            if nd is None:
+                return None
+            if nd.get("k") == "call" and callee_short(nd) == "size" and "this" in nd:
+                return _nospace(nd["this"])
+            r = local_ref(nd)
+            return locs.get(r["d"]) if r is not None else None
+        for lp in f.walk():
+            if lp.get("k") != "for" or lp.get("c") is None:
+                continue
+            c0 = strip_casts(peel(lp["c"]))
+            conj = [c0["x"], c0["y"]] if c0 is not None and c0.get("k") == "bin" and c0.get("op") == "&&" else [lp["c"]]
+            bounds = {}
+            for cj in conj:
+                ca = G.cmp_atom(cj)
+                if ca and ca[0] in ("<", "!="):
+                    rx = local_ref(ca[1])
+                    sz = size_of(ca[2])
+                    if rx is not None and sz:
+                        bounds.setdefault(rx["d"], set()).add(sz)
+            if not bounds:
+                continue
+            for x in walk(lp.get("body") or {}):
+                base = idx = None
+                if x.get("k") == "idx":
+                    base, idx = x.get("b"), x.get("x")
+                elif x.get("k") == "call" and callee_short(x) in ("operator[]", "at") and x.get("a"):
+                    if "this" in x:
+                        base, idx = x["this"], x["a"][0]
+                    elif len(x["a"]) >= 2:
+                        base, idx = x["a"][0], x["a"][1]
+                ri = local_ref(idx) if idx is not None else None
+                if base is None or ri is None or ri.get("d") not in bounds:
+                    continue
+                b = _nospace(base)
+                if b in bounds[ri["d"]]:
+                    continue
+                if "basic_string" in (strip_casts(peel(base)) or {}).get("t", "") and False:
+                    continue
+                n += 1
+                As = sorted(bounds[ri["d"]])
+                why = None
+                # (ii) same member of a copy
+                for a in As:
+                    for d, nm in copies.items():
+                        if b == "%s->%s" % (nm, a) or a == "%s->%s" % (nm, b) or b == "this->" + a or a == "this->" + b:
+                            why = "`%s` is a copy of *this made in this function: %s and %s have the same length" % (nm, a, b)
+                # (i) sizes compared, (iii) explicit bound
+
+                def holds(atom, truth, b=b, As=As, d=ri["d"]):
+                    ca = G.cmp_atom(atom)
+                    if not ca:
+                        return False
+                    op, u, v = ca
+                    op = op if truth else G.NEG[op]
+                    su, sv = size_of(u), size_of(v)
+                    if su and sv and op == "==" and ((su == b and sv in As) or (sv == b and su in As)):
+                        return True
+                    if sv == b and (local_ref(u) or {}).get("d") == d and op == "<":
+                        return True
+                    if su == b and (local_ref(v) or {}).get("d") == d and op == ">":
+                        return True
+                    return False
+                if why is None:
+                    e = G.edges_where(f, holds)
+                    if e and G.gated(f, x, e):
+                        why = "behind a comparison that makes %s as long as %s (or bounds the counter by it)" % (b, As[0])
+                ctx.ob("R15.26", "%s|%s[%s]|as-long-as-%s" % (f.name, b[:40], ri.get("n"), As[0][:30]), why is not None, f.loc(x),
+                       why or "`%s[%s]` inside a loop bounded by %s.size(): nothing in this function says that %s is as long" % (b, ri.get("n"), As[0], b))
+    ctx.floor("R15.26", "subscripts of a container other than the one that bounds the loop", n, 20)
